@@ -154,7 +154,9 @@ def stepB (id : String) (inp obs : List String) : String :=
     pure (c, progs, sched)
   let pOut : P (Option (List Ev)) := do
     let k ← tok
-    if k == "T" then some <$> list pEv else if k == "X" then pure none else failure
+    -- X: a worker panicked; Y: a second, independent Logger alive in the same process lost, duplicated or
+    -- received records (no state may be shared between loggers) — neither has a trace, both fail the oracle
+    if k == "T" then some <$> list pEv else if k == "X" || k == "Y" then pure none else failure
   match runP pIn inp, runP pOut obs with
   | some (custom, progs, sched), some o =>
     let m := LogBuf.run Flags.fixed custom progs sched
